@@ -2,19 +2,39 @@
 
 Everything here that judges the real code is written from the two property statements:
 
-  * `snapshot` / `diff`      - structural walk of every attribute of every node and of every recorded type
-                               (frame clause: "every other node, name, modifier and recorded type stays identical");
-  * `Oracle`                 - a small, independent local type inference over the *mutated* program (scopes, class
-                               members through the inheritance chain, constructor / call argument constraints, expected
-                               types) that answers, for each removed annotation, "what does a compiler infer here from
-                               the remaining program": three-valued (ok / violation / undecided);
-  * `Sub`                    - declarative nominal subtyping + the language's assignment conversions over the
-                               program's own class table (C04: "unrelated, not assignable either way").
+  * `Snap` / `diff`  - structural walk of every attribute of every node, of the symbol table and of every recorded
+                       type (frame clauses: "every other node, name, modifier and recorded type stays identical",
+                       "differs in exactly one declared type", "nothing injected => unchanged");
+  * `Oracle`/`Walker`- a small, independent local type inference over the *mutated* program (own scoping, class
+                       members through the inheritance chain, constraints from constructor / call arguments and from
+                       the expected type, joint inference of nested generic calls) that answers, for each removed
+                       annotation, "what does a compiler infer here from the remaining program": three-valued
+                       (holds / violated / undecided; undecided is never counted either way);
+  * `Oracle.sub`,
+    `_related`       - declarative nominal subtyping over the program's own class table + the language's assignment
+                       conversions (C04: "unrelated, not assignable either way");
+  * `RejectWalker`   - three-valued approximation of "a correct type checker must reject" (+ real javac on a budgeted
+                       subset of the Java translations in the thorough tier).  That clause is NOT decided here.
 
-The real code (src.transformations.*, src.analysis.type_dependency_analysis) is only *driven*; the one place where
-the harness steers it is the order in which `itertools.combinations` enumerates equally large candidate sets
-("all subsets of omittable annotations the mutation may choose": the mutation applies the first feasible set of
-maximal size, and which one comes first depends only on enumeration order).
+The real code (src.transformations.*, src.analysis.type_dependency_analysis) is only *driven*.  Harness-side
+steering, all outside the judged behaviour: (1) the order in which `itertools.combinations` enumerates equally large
+candidate sets inside TypeErasure ("all subsets of omittable annotations the mutation may choose": it applies the
+first feasible set of maximal size, and which one comes first depends only on enumeration order); (2) the seed of
+utils.random before TypeOverwriting; (3) the 600 s watchdog Timer of Transformation.visit_program is replaced by an
+inert one (it never fires here; thread start latency dominates small programs on a loaded machine).
+
+Inputs: 14 hand-built scenarios x 2 element types x 4 languages, and generator programs for the fixed seed lists
+SEEDS_QUICK / SEEDS_THOROUGH (+ VERIF_SEED-derived extras in the thorough tier); every input is rebuilt from
+(source, language, ident) alone, so each violation record is replayable with `replay`.
+
+Check names (all `bounded[...]`): erasure-frame, erasure-inferable:{var-type,return-type,constructor-type-arguments,
+call-type-arguments}[-narrowed][:from-outer-declaration], erasure:exception; overwrite-exactly-one,
+overwrite-unrelated:{same,subtype,supertype,conversion}[:type-variable], overwrite-message,
+overwrite-translation-changes:{variable,function,constructor-call,function-call,type-arguments-not-printed},
+overwrite-must-reject[:javac], overwrite-noinject:{message,translation,frame}, overwrite-frame, overwrite:exception.
+"-narrowed" = the compiler infers a strict subtype of the removed annotation (counted in the statistics, NOT a violation:
+the statement only demands that the program stays well-typed; the ill-typed consequences are reported under the plain name); ":from-outer-declaration" = the initializer / body is a bare name
+bound outside the analysed function (field of the enclosing class, global variable) - a cause discriminator only.
 """
 import copy
 import importlib
@@ -323,17 +343,17 @@ class Env:
         self.cls = cls if cls is not None else (parent.cls if parent else None)
         self.func = func if func is not None else (parent.func if parent else None)
 
-    def lookup_var(self, name):
+    def lookup_var(self, name, stop=None):
         e = self
-        while e is not None:
+        while e is not None and e is not stop:
             if name in e.vars:
                 return e.vars[name]
             e = e.parent
         return None
 
-    def lookup_func(self, name):
+    def lookup_func(self, name, stop=None):
         e = self
-        while e is not None:
+        while e is not None and e is not stop:
             if name in e.funcs:
                 return e.funcs[name]
             e = e.parent
@@ -601,7 +621,7 @@ class Oracle:
 
     def resolve_var(self, name, env):
         """declared type (key) of the variable `name` visible in env"""
-        d = env.lookup_var(name)
+        d = env.lookup_var(name, stop=self.genv)        # locals and parameters, then fields, then globals
         if d is not None:
             return self.decl_type(d)
         if env.cls is not None:
@@ -629,10 +649,10 @@ class Oracle:
         """(function declaration | None, substitution from the receiver, function-typed variable key | None)"""
         ast = self.M.ast
         if call.receiver is None:
-            d = env.lookup_func(call.func)
+            d = env.lookup_func(call.func, stop=self.genv)
             if d is not None:
                 return d, {}, None
-            v = env.lookup_var(call.func)
+            v = env.lookup_var(call.func, stop=self.genv)
             if v is not None:
                 return None, {}, self.decl_type(v)
             if env.cls is not None:
@@ -1051,20 +1071,26 @@ class Walker:
         except Unknown as e:
             self.record(kind, node, 'undecided', where, str(e))
         except Narrowed as e:
-            self.record(kind.replace(':from-field', '') + '-narrowed' + (':from-field' if ':from-field' in kind else ''),
-                        node, 'violation', where, str(e))
+            # the statement demands that the program stays well-typed with the inferred type, not that the inferred type is
+            # the removed annotation: a narrower inferred type alone is counted ("narrowed"), not reported; it becomes a
+            # violation only where the reference finds the narrowed program ill-typed (Mismatch below)
+            self.record(kind.replace(':from-outer-declaration', '') + '-narrowed' + (':from-outer-declaration' if ':from-outer-declaration' in kind else ''),
+                        node, 'narrowed', where, str(e))
         except (NoInfer, Mismatch) as e:
             self.record(kind, node, 'violation', where, str(e))
         except RecursionError:
             self.record(kind, node, 'undecided', where, 'reference recursion limit')
 
     def _from_field(self, e, env):
-        """is the initializer / body a bare name that denotes a field of the enclosing class"""
+        """is the initializer / body a bare name bound outside the analysed function: a field of the enclosing class or
+        a global variable (cause discriminator of the check name only)"""
         o = self.o
         e = o.unwrap(e)
-        if not isinstance(e, self.M.ast.Variable) or env.cls is None or env.lookup_var(e.name) is not None:
+        if not isinstance(e, self.M.ast.Variable) or env.lookup_var(e.name, stop=o.genv) is not None:
             return False
-        return o.member(o.self_type(env.cls), e.name, env, 'field') is not None
+        if env.cls is not None and o.member(o.self_type(env.cls), e.name, env, 'field') is not None:
+            return True
+        return e.name in o.genv.vars
 
     def _narrow(self, name, inf, rec, env):
         o = self.o
@@ -1114,7 +1140,7 @@ class Walker:
                                              inf, rec)], o)
                 self._narrow(v.name, inf, rec, env)
             return o.show(inf)
-        self.judge('var-type' + (':from-field' if self._from_field(v.expr, env) else ''), v, where, fn)
+        self.judge('var-type' + (':from-outer-declaration' if self._from_field(v.expr, env) else ''), v, where, fn)
 
     def check_ret(self, f, env, where):
         o = self.o
@@ -1141,7 +1167,7 @@ class Walker:
             if inf != rec:
                 self._narrow(f.name, inf, rec, env)
             return o.show(inf)
-        self.judge('return-type' + (':from-field' if f.body is not None and self._from_field(f.body, env) else ''),
+        self.judge('return-type' + (':from-outer-declaration' if f.body is not None and self._from_field(f.body, env) else ''),
                    f, where, fn)
 
     def check_new(self, e, env, expected, where):
@@ -1171,7 +1197,7 @@ class Walker:
         for name, d in decls.items():
             where = 'global/' + name
             if isinstance(d, ast.VariableDeclaration):
-                self.var(d, o.genv, where)
+                self.var(d, o.genv, 'global')
             elif isinstance(d, ast.FunctionDeclaration):
                 self.func(d, o.genv, where)
             elif isinstance(d, ast.ClassDeclaration):
@@ -1474,13 +1500,6 @@ def run_erasure(M, program, steer=None, options=None):
         te.itertools = old
 
 
-def _split(path):
-    """'X.attr...' -> (owner node path, attribute with its suffix)"""
-    i = path.rfind('.')
-    # the owner is the longest prefix that is a node path: attribute names contain no '/', '[' after them except idx
-    return path[:i], path[i + 1:]
-
-
 def classify_erasure_diff(M, before, after, d):
     """(removed annotations, link writes, forbidden changes) of a diff, by the first sentence of C03"""
     ast, tp = M.ast, M.tp
@@ -1539,7 +1558,7 @@ def judge_erasure(M, before, after, program_after):
     removed, links, forbidden = classify_erasure_diff(M, before, after, d)
     viol = []
     stats = {'var': len(removed['var']), 'ret': len(removed['ret']), 'new': len(removed['new']),
-             'call': len(removed['call']), 'ok': 0, 'undecided': 0, 'violation': 0, 'undecided_why': {}}
+             'call': len(removed['call']), 'ok': 0, 'undecided': 0, 'violation': 0, 'narrowed': 0, 'undecided_why': {}}
     for path, x, y in forbidden[:1]:
         viol.append(('frame', dict(path=path, before=_fmt(x), after=_fmt(y), all_changed_paths=len(forbidden),
                                    expected='only declared variable types, declared return types and the inference '
@@ -1573,11 +1592,6 @@ def judge_erasure(M, before, after, program_after):
             viol.append(('inferable:' + kind, dict(where=where, detail=detail)))
     # the analysis caches the callee's type parameters on generic calls: must be exactly the callee's own list
     for opath, call in links:
-        exp = None
-        try:
-            env = _env_of_call(o, w, call)
-        except Exception:
-            env = None
         viol.extend(_check_link(M, o, call, opath))
     return viol, stats, removed
 
@@ -1606,10 +1620,6 @@ def _check_link(M, o, call, opath):
             return []
     return [('frame', dict(path=opath + '.type_parameters', before='[]', after=str(call.type_parameters),
                            expected='unchanged, or the type parameters of a declaration of %s' % call.func))]
-
-
-def _env_of_call(o, w, call):
-    return None
 
 
 # ----------------------------------------------------------------------------------------------------------------
@@ -1828,17 +1838,19 @@ def _related(M, o, old_t, new_t, conversions=True):
         if o.assignable(new_t, eff, env):
             return 'a value of the new type is assignable to the replaced type (%s conversion)' % o.lang
         return None
+    tvar = eff is not old_t
     if a == b:
-        return 'the same type' + (' (bound of the type variable)' if eff is not old_t else '')
-    if o.sub(b, a, env):
-        return 'new type is a subtype of the replaced type' + (' (its bound)' if eff is not old_t else '')
+        return 'the same type' + (' (bound of the type variable)' if tvar else '')
+    if not tvar and o.sub(b, a, env):
+        # (for a type variable T <: B a subtype U of B is not related to T: neither T <: U nor U <: T)
+        return 'new type is a subtype of the replaced type'
     if o.sub(a, b, env):
-        return 'new type is a supertype of the replaced type' + (' (its bound)' if eff is not old_t else '')
+        return 'new type is a supertype of the replaced type' + (' (of its bound, hence of the variable)' if tvar else '')
     if not conversions:
         return None                 # type arguments are matched invariantly: assignment conversions do not apply
     if o.assignable(eff, new_t, env):
         return 'a value of the replaced type is assignable to the new type (%s conversion)' % o.lang
-    if o.assignable(new_t, eff, env):
+    if not tvar and o.assignable(new_t, eff, env):
         return 'a value of the new type is assignable to the replaced type (%s conversion)' % o.lang
     return None
 
@@ -2168,14 +2180,14 @@ def _plan(prop, tier, seed):
                 items.append((prop, 'generated', lang, sd, [dict(steer=s) for s in gsteers], False))
     else:
         hr = [1000 + i for i in range(4 if quick else 6)] + [rnd.randrange(1 << 30) for _ in range(1 if quick else 3)]
-        gr = [1000 + i for i in range(2 if quick else 4)] + [rnd.randrange(1 << 30) for _ in range(1 if quick else 2)]
+        gr = [1000 + i for i in range(2 if quick else 3)] + [rnd.randrange(1 << 30) for _ in range(1 if quick else 2)]
         for lang in LANGS:
             for h in hand:
                 # javac (thorough only): one injection per hand-built Java program
                 items.append((prop, 'hand', lang, h,
                               [dict(erased=e, rng=r) for e in (False, True) for r in hr],
                               1 if (not quick and lang == 'java') else 0))
-            for n, sd in enumerate(seeds[lang] + extra[lang]):
+            for n, sd in enumerate(seeds[lang][:36] + extra[lang]):
                 # javac (thorough only): two injections for each of the first 16 generated Java programs
                 items.append((prop, 'generated', lang, sd,
                               [dict(erased=e, rng=r) for e in (False, True) for r in gr],
@@ -2218,11 +2230,12 @@ def _work(item):
             if k not in jcache:
                 jcache[k] = javac_accepts(text)
             return jcache[k]
-        if jcount[0] >= int(use_javac) or time.time() - t_start > 240:
+        if time.time() - t_start > 300:
             return None
         jcount[0] += 1
         return javac_accepts(text)
     seen_inj = set()
+    jcands = []
     for v in variants:
         fi = dict(prop=prop, source=source, lang=lang, ident=ident)
         fi.update(v)
@@ -2232,7 +2245,7 @@ def _work(item):
             if key:
                 res['keys'].append((lang, source, ident) + (key,))
             if stats:
-                for k in ('var', 'ret', 'new', 'call', 'ok', 'undecided', 'violation'):
+                for k in ('var', 'ret', 'new', 'call', 'ok', 'undecided', 'violation', 'narrowed'):
                     agg[k] = agg.get(k, 0) + stats[k]
                 for k, n in stats['undecided_why'].items():
                     agg.setdefault('why', {})
@@ -2241,23 +2254,20 @@ def _work(item):
                     res['samples'].append(dict(input=fi, removed={k: stats[k] for k in ('var', 'ret', 'new', 'call')},
                                                example=repr(stats['example'])))
         else:
-            first = None
-            use = None
-            if use_javac:
-                use = javac
             viol, key, info = eval_c04(M, P0, fi, None)
-            if use is not None and key is not None and key not in seen_inj:
-                viol, key, info = eval_c04(M, P0, fi, use)
             res['evaluations'] += 1
             if key is not None:
+                if use_javac and key not in seen_inj:
+                    # javac later, on the injections most likely to be accepted first: related by a conversion,
+                    # then those the local reference cannot decide, then the rest
+                    pri = (0 if any('unrelated' in x['check'] for x in viol) else
+                           1 if info['reject'][0] != 'rejects' else 2)
+                    jcands.append((pri, len(jcands), fi))
                 seen_inj.add(key)
                 res['keys'].append((lang, source, ident, bool(v.get('erased'))) + key)
                 agg['injected'] = agg.get('injected', 0) + 1
                 agg['kind:' + str(info.get('kind'))] = agg.get('kind:' + str(info.get('kind')), 0) + 1
                 agg['reject:' + info['reject'][0]] = agg.get('reject:' + info['reject'][0], 0) + 1
-                if 'javac' in info and info['javac'] is not None:
-                    agg['javac:rejects' if info['javac'] else 'javac:accepts'] = agg.get(
-                        'javac:rejects' if info['javac'] else 'javac:accepts', 0) + 1
                 u = info.get('unrelated')
                 agg['unrelated:' + ('yes' if u is True else 'no' if u is False else 'undecided')] = agg.get(
                     'unrelated:' + ('yes' if u is True else 'no' if u is False else 'undecided'), 0) + 1
@@ -2267,6 +2277,12 @@ def _work(item):
             else:
                 agg['not-injected'] = agg.get('not-injected', 0) + 1
         res['violations'].extend(viol)
+    for pri, _, fi in sorted(jcands)[:int(use_javac)]:
+        viol, key, info = eval_c04(M, P0, fi, javac)
+        if info.get('javac') is not None:
+            k = 'javac:rejects' if info['javac'] else 'javac:accepts'
+            agg[k] = agg.get(k, 0) + 1
+        res['violations'].extend(x for x in viol if x['check'].endswith('javac]'))
     res['stats'] = agg
     return res
 
